@@ -74,7 +74,7 @@ Definition pe_update_after_unlock_any (en : penergy) (amt unlock now : Z) : resu
 (** ------------------------------------------------------------------ fixed-supply-token *)
 (** rule_of_three_non_zero_result: full * cur / total (full itself when cur = total), "Zero amount" abort *)
 Definition rule3 (total cur full : Z) : result Z :=
-  do r <- (if cur =? total then Ok full else div_chk (full * cur) total);
+  do r <- (if cur =? total then Ok full else div_chk (full * cur + total - 1) total);
   check 0 <? r else EGuard;
   Ok r.
 
